@@ -545,6 +545,11 @@ func c06BodiesAfterDeadline(tier string, seed int64, idx int) *core.Result {
 			}
 		}
 	}
+	if nTrailer != 1 {
+		// the peer never reset the stream and the connection is alive: the handler's return must
+		// produce the stream's one trailer although the stream's own deadline has passed
+		res.Violate("handler-returned-without-trailer/after-server-deadline", "the handler of stream %d returned after its 20 ms deadline had passed; its peer had not reset the stream and the connection was alive, but the server emitted %d trailers (and %d resets) for it", id, nTrailer, nReset)
+	}
 	if nReset > 0 {
 		res.Violate("server-resets-a-stream-it-still-knows", "the handler of stream %d was still running (past its 20 ms deadline) when three more bodies arrived: the server emitted %d reset(s) for the stream and then %d trailer(s)", id, nReset, nTrailer)
 	}
@@ -727,6 +732,9 @@ func c06Run(tier string, seed int64, idx int) *core.Result {
 	}
 	if strings.HasPrefix(c.Source, "directed-") {
 		res.Violations = append(res.Violations, sub.Violations...) // the directed families are C06's own
+		if len(sub.Violations) > 0 {
+			res.Verdict = core.Violated
+		}
 	}
 	for _, b := range bed.Recent {
 		for li, l := range b.Links {
